@@ -5,11 +5,25 @@
 // isTrie=false), against a plain-Go reference model whose snapshot is a deep copy and whose Copy is a deep copy.
 //
 // Oracle 1 (getters): after every explored sequence, every observable of EVERY live instance (original, copies,
-// copies of copies) equals the model. Key families: revert-inexact:*, copy-aliasing:*, copy-differs-from-source:*,
-// copy-leak:*, residue-after-revert-or-copy:*.
-// Oracle 2 (roots, own key family root-twin:* / commit-root-twin:*): IntermediateRoot (and then the Commit root) of
-// every instance equals that of an untouched twin: a fresh StateDB in a fresh database that executed only the
-// instance's effective lineage (its un-reverted operations, no Snapshot/Revert at all, no other instances).
+// copies of copies) equals the model, and so does a throw-away Copy() of every instance. Key families:
+//
+//	revert-inexact:<observable>            the instance that executed RevertToSnapshot differs from the snapshot state
+//	copy-aliasing:<observable>             an instance changed although the letter ran on another instance
+//	copy-differs-from-source:<what>        a fresh copy does not show what its source shows
+//	copy-leak:<what>                       Commit/IntermediateRoot of one instance shows through in another
+//	residue-after-revert-or-copy:<op>:<observable>   late effect: the untouched twin agrees with the model, the instance does not
+//	model-mismatch:<op>:<observable>       twin and instance agree with each other but not with the model: plain
+//	                                       semantics, not a revert/copy effect (harness model to be corrected)
+//
+// Oracle 2 (roots, own key family root-twin:<record field>): IntermediateRoot, and then the Commit root, of every
+// instance equals that of an untouched twin: a fresh StateDB over a fresh database that executed only the instance's
+// effective lineage (its un-reverted operations; no Snapshot/Revert at all, no other instances). Getters are equal in
+// these cases by construction (oracle 1 passed first), so this family is exactly the root-only differences.
+// A key found in a key-value mode that the same sequence does not produce over the plain caching trie database
+// carries the suffix @kv-trie-only / @kv-flat-only.
+//
+// Extras: C09_PROBE=1 prints straight-line reproductions of every finding; C09_ONLY=<substr>, C09_DEPTH=<n> restrict /
+// deepen by hand (run is then reported as capped); C09_MERGECHECK=<n> switches the engine's state-key self-test on.
 package main
 
 import (
